@@ -31,7 +31,7 @@ func main() {
 		panic(err)
 	}
 	switch *family {
-	case "engine", "fe", "modes", "builder":
+	case "engine", "fe", "modes", "builder", "purity":
 		engine(*family, *profile, *seed, *n, *out, *shard, *ids)
 	default:
 		only := map[int]bool{}
@@ -114,6 +114,13 @@ func engine(family, profile string, seed uint64, n int, out string, shard int, i
 				flush()
 			}
 			continue
+		} else if family == "purity" {
+			var tags []string
+			var detail string
+			c, tags, detail = eng.NewPurityCase(g, i)
+			if len(tags) > 0 {
+				failures = append(failures, map[string]any{"id": i, "tags": tags, "detail": detail})
+			}
 		} else if family == "builder" {
 			c = eng.NewBuilderCase(g, i)
 		} else if family == "fe" {
